@@ -212,6 +212,27 @@ def run(ctx):
                "after a futex wait no exit of the retry loop is decided by the timeout (neither errno == ETIMEDOUT "
                "nor the recomputed remaining time)")
 
+        # R5e a timed wait is not re-entered with the timeout it was given before: between two waits the remaining time is
+        # recomputed (the timeout variable is re-assigned) unless there is no timeout at all
+        for w in waits:
+            targ = strip_cast(ig.rarg(w, 1)) if len(w.ev.get("args", [])) > 1 else None
+            if not (isinstance(targ, dict) and targ.get("k") == "p"):
+                continue
+            renew = [n for n in ig.ev_nodes() if n.id in live and n.ev["e"] == "asg" and n.ev.get("op") == "=" and
+                     strip_cast(n.ev.get("lhs")).get("k") == "p" and strip_cast(n.ev["lhs"]).get("i") == targ.get("i")]
+
+            def untimed(atom, pol, lab, targ=targ):
+                c = L.effective_cmp(atom, pol)
+                return c is not None and c[0] == "==" and const_val(c[2]) == "null" and \
+                    strip_cast(c[1]).get("k") == "p" and strip_cast(c[1]).get("i") == targ.get("i")
+            ue = L.cond_edges(ig, untimed, live)
+            again = w.id in ig.reach([m for m, _ in w.succ], removed=renew, removed_edges=ue)
+            ctx.ob("C02.R5e", inst, bool(renew) and not again, w.where,
+                   "the futex wait can be re-entered with the same relative timeout it was entered with before (no path from the "
+                   "wait back to itself may avoid the recomputation of the remaining time): each wake-up that is not the awaited "
+                   "one - a signal, a spurious wake - then re-arms the full timeout and the timed pop overruns its deadline",
+                   site="%s@timeout-renewed" % inst)
+
     # ------------------------------------------------------- R5d errno reset before the wait (shared with C01.R10)
     C01.errno_discipline(ctx, "C02.R5d", fb)   # conditional: applies where a wait loop tests errno at all
 
